@@ -68,3 +68,58 @@ pub fn sort_unstable_ctl(v: &mut Vec<Item>) {
 pub fn dec(x: Decimal) -> Decimal {
     x
 }
+
+// ---------------------------------------------------------------- C15 / C20 may-panic controls
+pub fn panic_unwrap(x: Option<i32>) -> i32 {
+    x.unwrap()
+}
+
+pub fn panic_macro(x: i32) -> i32 {
+    if x < 0 {
+        panic!("negative");
+    }
+    x
+}
+
+pub fn panic_days_nonconst(d: chrono::NaiveDate, n: i64) -> Option<chrono::NaiveDate> {
+    d.checked_sub_signed(chrono::Duration::days(n))
+}
+
+pub fn panic_days_const_ok(d: chrono::NaiveDate) -> Option<chrono::NaiveDate> {
+    for k in 1..=7 {
+        if let Some(x) = d.checked_sub_signed(chrono::Duration::days(k)) {
+            return Some(x);
+        }
+    }
+    None
+}
+
+pub fn overflow_add_param(y: i32) -> i32 {
+    (y + 1) % 100
+}
+
+pub fn index_guarded_ok(v: &[i32]) -> i32 {
+    let mut i = 0;
+    let mut s = 0;
+    while i < v.len() {
+        s ^= v[i];
+        i += 1;
+    }
+    s
+}
+
+pub fn index_unguarded(v: &[i32], i: usize) -> i32 {
+    v[i]
+}
+
+pub fn vec_index_unguarded(v: &Vec<i32>, i: usize) -> i32 {
+    v[i]
+}
+
+pub fn decimal_mul(a: Decimal, b: Decimal) -> Decimal {
+    a * b
+}
+
+pub fn decimal_behind_barrier(a: Decimal, b: Decimal) -> Option<Decimal> {
+    std::panic::catch_unwind(|| decimal_mul(a, b)).ok()
+}
